@@ -48,7 +48,10 @@ MOpen == /\ Consume("open") /\ (("kept" \in DOMAIN Ev) => Ev.kept)
               /\ opened' = IF Ev.ok /\ honest THEN opened \cup {Ev.hon} ELSE opened
          /\ UNCHANGED sealed
 
-MNext == MReset \/ MSeal \/ MForge \/ MTamper \/ MOpen
+\* the attacker relayed honest envelopes as push payloads naming the forged entry's CID (nothing to judge here:
+\* the open of the forged entry that follows must still be refused)
+MPushFirst == Consume("pushfirst") /\ UNCHANGED <<sealed, opened>>
+MNext == MReset \/ MSeal \/ MForge \/ MTamper \/ MOpen \/ MPushFirst
 MInit == l = 1 /\ sealed = {} /\ opened = {} /\ TLCSet(42, 1)
 MSpec == MInit /\ [][MNext]_mvars
 
